@@ -179,6 +179,28 @@ def check_state(t, prof, ctx, probe, light=False):
         return
     if got != prof:
         ctx.violation("height_not_entropy", case, {"height": got, "entropy": prof}, key="height_value")
+    # single-position entry point, asked on the SAME two array objects for every state of this size: the arrays are
+    # overwritten in place between states (a result remembered per array identity shows here)
+    shared = probe.__dict__.setdefault("shared_xz", {})
+    if t.n not in shared:
+        shared[t.n] = (np.zeros_like(x), np.zeros_like(z))
+    else:
+        ctx.count("height_function:reused_arrays_after_inplace_edit")
+    xb, zb = shared[t.n]
+    xb[...] = x
+    zb[...] = z
+    try:
+        ks = range(t.n) if t.n <= 8 else sorted({0, t.n - 1, t.n // 2, (ctx.evaluations * 7) % t.n})
+        one = {k: int(height.height_function(xb, zb, k)) for k in ks}
+        ctx.count("height_function:calls", len(one))
+        if any(one[k] != prof[k] for k in one):
+            ctx.violation("height_function_not_entropy", case, {"height_function": one, "entropy": prof}, key="height_function_value")
+        if not (np.array_equal(xb, x) and np.array_equal(zb, z)):
+            ctx.count("height_function:edits_its_arguments")
+            xb[...] = x
+            zb[...] = z
+    except Exception as e:
+        ctx.violation("height_raises", case, {"exception": f"{type(e).__name__}: {e}"[:300], "entry": "height_function"}, key="height_exc")
     if light:
         return
     try:
